@@ -262,7 +262,7 @@ template<uint32_t W, uint32_t G0, uint32_t PID, uint32_t OPT> static void check_
   World<W> w = world1<W, G0, PID, OPT>();
   constexpr uint32_t A = 64 * W;
   size_t bs = size_t(A) * w.G;
-  size_t off = nondet_u32() & 0xFFFF;                     // 4 slots of at most 8 KiB: inside and beyond
+  size_t off = nondet_u32() & 0x3FFFF;                    // the 4 slots (at most 4 x 64 KiB at granularity 512) and beyond
   uint8_t* rx = arena_at(arena_rx, off);
   size_t boff = size_t(w.slot) * bs;
   JitAllocator::Span span; span._rx = arena_rx; span._size = 77; span._block = w.b;
